@@ -122,6 +122,17 @@ func (fv *FV) execCall(fr *Frame, st *State, x *ssa.Call) []Outcome {
 		if cb := fv.callbackFor(fr, common.Value); cb != nil {
 			return fv.applyCallback(fr, st, cb, args, common.Signature(), x)
 		}
+		// value of a named function type with a `functype` contract
+		if nt, ok := common.Value.Type().(*types.Named); ok && nt.Obj().Pkg() != nil {
+			if c := fv.P.Specs.Contracts[nt.Obj().Pkg().Path()+"::functype "+nt.Obj().Name()]; c != nil {
+				sig := common.Signature()
+				var pts []types.Type
+				for i := 0; i < sig.Params().Len(); i++ {
+					pts = append(pts, sig.Params().At(i).Type())
+				}
+				return fv.applyContract(fr, st, c, args, pts, sig.Results(), x, nt.Obj().Name())
+			}
+		}
 		fv.fail("dynamic call of %s in %s at %s needs a callback contract", common.Value.Name(), fr.fn.Name(), fv.pos(x.Pos()))
 	}
 	return nil
